@@ -90,7 +90,8 @@ pub fn replay_case(case: &Value, tally: &mut Tally) {
     let _ = std::fs::write(&path, vec![0xFFu8; 4096 + 24]);
     // every third case through the constructors with the default buffer size (the buffer size is not observable)
     let mut cfg_new = cfg.clone();
-    if tally.cases % 3 == 0 { cfg_new["default_buf"] = json!(1); }
+    // (chosen by a hash of the case: the three endings of one history are adjacent in the case file, a counter would alias with them)
+    if hstr(&case.to_string()) % 3 == 0 { cfg_new["default_buf"] = json!(1); }
     let cfg_open = &cfg_new;
     let (mut w, mut m) = match open(cfg_open, &path) { Ok(x) => x, Err(e) => { tally.check(ckey, true, &|| ctx(-1, "open"), &json!("ok"), &json!(e.to_string())); return; } };
     let mut key = ckey;
